@@ -217,5 +217,8 @@ fail_fs:
 	fstree_cleanup(&sqfs->fs);
 fail_file:
 	sqfs_drop(sqfs->outfile);
+#if !defined(_WIN32) && !defined(__WINDOWS__)
+	unlink(wrcfg->filename);
+#endif
 	return -1;
 }
